@@ -78,4 +78,9 @@ def select(prop, tier):
     hs = [h for h in load() if h["prop"] == prop]
     if tier == "quick":
         hs = [h for h in hs if h["tier"] == "quick"]
+    elif tier == "thorough":
+        # "experimental" harnesses are the ones measured not to finish within
+        # memory/time on this machine; they are kept for documentation and
+        # run only with --tier experimental
+        hs = [h for h in hs if h["tier"] in ("quick", "thorough")]
     return hs
